@@ -39,7 +39,7 @@ static void run() {
             with({Op{ENABLE, 1, 0, 0}}, Op{CREATE, 1, 1, 0}); with({Op{ENABLE, 0, 0, 0}}, Op{CREATE, 1, 1, 0});
             for (uint8_t k = 0; k < 5; k++) with(src, Op{LOAD, 0, 1, k}); with(low, Op{LOAD, 0, 1, 0});
             for (uint8_t code : {(uint8_t)DECODE, (uint8_t)DECODE_X}) { for (uint8_t k = 0; k < 8; k++) with(src, Op{code, 4, L, (uint8_t)(cc + k)}); with(low, Op{code, 4, L, cc}); with({}, Op{code, 0, L, 2}); with({}, Op{code, 0, L, 0}); }
-            for (auto& sc : scripts) { if ((int)(idx++ % (uint64_t)a.nworkers) != a.worker) continue; Case c; c.set("ops", to_hex(sc)); c.set("inject", 0); c.set("gen", "cell-script"); set_current(c); std::string m = oracle(c); done++; if (!m.empty()) { record_failure(c, m); return; } }
+            for (auto& sc : scripts) { if ((int)(idx++ % (uint64_t)a.nworkers) != a.worker) continue; Case c; c.set("ops", to_hex(sc)); c.set("inject", 0); c.set("gen", "cell-script"); set_current(c); std::string m = oracle(c); done++; if (!m.empty() && enum_fail(c, m)) return; }
         }
         W().ev.enumerated["cell scripts: entry point x outcome x {no failure, 1st/2nd/3rd request fails} x 40 language/coin variants"] += done;
     }
